@@ -54,6 +54,13 @@ def gen(rs, tier):
         rows = []
         for _ in range(r.randint(1, 10)):
             a = r.uniform(0, 24)
+            u_ = r.random()
+            if u_ < 0.08:
+                a = 24.0                      # a draw beyond midnight pinned to the default arrival_max: first period of the next day
+            elif u_ < 0.12:
+                a = r.uniform(24, 27)         # a user bound arrival_max > 24: arrivals after midnight
+            elif u_ < 0.16:
+                a = float(r.randint(0, 23)) + r.choice([0.0, 0.25, 0.5])
             d = r.choice([r.uniform(0.0833, 2), r.uniform(1, 12), r.uniform(10, 48)])
             deliverable = max_power * d
             e = deliverable * r.uniform(0.05, 0.8) if fit else r.choice([r.uniform(0.5, 30), deliverable * r.uniform(0.1, 2.0)])
@@ -110,6 +117,12 @@ def gen(rs, tier):
             back = r.randint(1, 3 * 86400)
             d["connectionTime"] = start - back
             d["disconnectTime"] = d["connectionTime"] + r.randint(60, 86400)
+    if not common["force_feasible"] and bp != "fit" and r.random() < 0.3:
+        # corrupt records (charger clock reset while a car was plugged in): the disconnect stamp precedes the connect stamp.
+        # Only the period indices are promised; the caller recognises such a record by departure < arrival.
+        for d in docs[-r.randint(1, 2):]:
+            d["disconnectTime"] = d["connectionTime"] - r.choice([r.randint(1, 120), r.randint(60, 7200), r.randint(3600, 86400)])
+        common["reversed_docs"] = True
     if r.random() < 0.3:
         common["prelude_battery"] = r.choice(["fit", "l2_kwargs", "ideal_kwargs", "none"])
     common.update(path="acndata", docs=docs, pages=[r.choice([0, 1, 2, 5, 100]) for _ in range(r.choice([0, 1, 3]))],
@@ -139,7 +152,10 @@ def check_ev(out, sc, tag, ev, arrival, departure, energy_doc, deliverable_power
         out.add("C15/period_index", "%s: arrival/departure %r/%r, expected %r/%r" % (tag, ev.arrival, ev.departure, arrival, departure))
         return
     if ev.departure < ev.arrival:
-        out.add("C15/departure_before_arrival", tag)
+        if deliverable_power_h < 0:
+            out.probe("reversed_record_kept_recognisable")
+        else:
+            out.add("C15/departure_before_arrival", tag)
     if ev.departure == ev.arrival:
         out.probe("departure_eq_arrival")
     want = energy_doc
@@ -326,10 +342,25 @@ def check(sc):
                             out.probe("max_len_capped")
                         xa = Fraction(a_h) * pph
                         xd = (Fraction(a_h) + Fraction(dur)) * pph
-                        if min(abs(xa - round(xa)), abs(xd - round(xd))) < Fraction(1, 10 ** 9):
-                            out.inconclusive += 1
-                            continue
+                        def exact_(*vs):
+                            # on a period boundary the floor is only judged where every float evaluation of the products is exact:
+                            # a whole number of periods per hour and dyadic hours
+                            return pph.denominator == 1 and all(Fraction(v).denominator <= 1024 and abs(v) < 2 ** 20 for v in vs)
                         a, dep = int(xa // 1), int(xd // 1)
+                        if abs(xa - round(xa)) < Fraction(1, 10 ** 9):
+                            if exact_(a_h):
+                                out.probe("exact_period_boundary")
+                                if a_h >= 24:
+                                    out.probe("arrival_at_or_after_midnight")
+                            elif abs(ev.arrival - a) <= 1:
+                                a = ev.arrival          # either side of a boundary that floats cannot place: not judged
+                                out.probe("arrival_boundary_not_judged")
+                        if abs(xd - round(xd)) < Fraction(1, 10 ** 9):
+                            if exact_(a_h, dur):
+                                out.probe("exact_period_boundary")
+                            elif abs(ev.departure - dep) <= 1:
+                                dep = ev.departure
+                                out.probe("departure_boundary_not_judged")
                         if ev_evt.timestamp != a:
                             out.add("C15/plugin_timestamp", "sample %d: plugin event at %d, arrival %d" % (i, ev_evt.timestamp, a))
                         check_ev(out, sc, "sample %d (%.4f h, %.4f h, %.3f kWh)" % (i, a_h, d_h, e_kwh), ev, a, dep, e_kwh, dur)
